@@ -13,12 +13,12 @@ Proof. destruct sd; reflexivity. Qed.
 Lemma view_heap s sd h : view (with_heap s sd h) sd = view s sd.
 Proof. destruct sd; reflexivity. Qed.
 Lemma so_read_fst sd o c s :
-  fst (so_read sd o c s) =
+  fst (so_read cfg sd o c s) =
     match nth c (i_vals (get_inst s sd o)) None with
     | Some v => Ret v
     | None => if dead s sd then Raise EAssertion
               else match tbl_lookup (view s sd) (i_id (get_inst s sd o)) with
-                   | Some r => Ret (nth c r None)
+                   | Some r => Ret (nth c (reloaded cfg (get_inst s sd o) r) None)
                    | None => Raise ENotFound
                    end
     end.
@@ -38,7 +38,7 @@ Lemma read_spec s h sd o c :
     | Some v => Ret (RVal v)
     | None => if dead s sd then Raise EAssertion
               else match tbl_lookup (view s sd) (i_id (get_inst s sd o)) with
-                   | Some r => Ret (RVal (nth c r None))
+                   | Some r => Ret (RVal (nth c (reloaded cfg (get_inst s sd o) r) None))
                    | None => Raise ENotFound
                    end
     end.
@@ -46,7 +46,7 @@ Proof.
   intros H. unfold step. cbn [run_op]. unfold handle, bind, gets. cbv beta iota. cbn [slots with_log].
   rewrite H. unfold ret at 1. cbv beta iota. cbn [fst snd].
   pose proof (so_read_fst sd o c (with_log s [])) as F.
-  destruct (so_read sd o c (with_log s [])) as [[v|e] s1]; cbn [fst] in *; 
+  destruct (so_read cfg sd o c (with_log s [])) as [[v|e] s1]; cbn [fst] in *; 
   change (get_inst (with_log s []) sd o) with (get_inst s sd o) in F;
   change (dead (with_log s []) sd) with (dead s sd) in F;
   change (view (with_log s []) sd) with (view s sd) in F.
@@ -65,12 +65,12 @@ Proof.
 Qed.
 
 (* ------------------------------------------------------------------ a finished transaction *)
-Ltac mred := repeat (unfold hold_or_none, or_empty_slot, wrapper_access, handle, so_create, so_set, so_destroy, so_sync,
-                            db_insert, db_update, db_delete, db_select_one, stmt_read, stmt_write, bind, gets, modify, ret, raise;
+Ltac mred := repeat (unfold hold_or_none, or_empty_slot, wrapper_access, handle, so_create, so_set, so_destroy, so_sync, so_reload, so_sync_update,
+                            db_insert, db_update, db_update_cols, db_delete, db_select_one, stmt_read, stmt_write, bind, gets, modify, ret, raise;
                      cbv beta iota).
 
 Lemma obs_needs_db s o :
-  tobs s = true -> op_side s o = Some Txn -> needs_db s o = true -> fst (step cfg s o) = Raise EAssertion.
+  tobs s = true -> op_side s o = Some Txn -> needs_db cfg s o = true -> fst (step cfg s o) = Raise EAssertion.
 Proof.
   intros Ht Hs Hn. unfold step.
   destruct o; cbn in Hs, Hn; try discriminate; cbn [run_op].
@@ -83,14 +83,23 @@ Proof.
     pose proof (read_spec s h Txn x c E) as R. unfold step in R. cbn [run_op] in R. rewrite R.
     destruct (nth c (i_vals (get_inst s Txn x)) None); [discriminate|]. cbn [dead]. rewrite Ht. reflexivity.
   - (* assignment *)
+    destruct (lazy cfg) eqn:Elz; [discriminate|].
     destruct (nth h (slots s) None) as [[sd x]|] eqn:E; [|discriminate]. inversion Hs; subst.
-    mred. cbn [slots with_log]. rewrite E. cbn [fst snd tobs with_log]. rewrite Ht. reflexivity.
+    mred. cbn [slots with_log]. rewrite E, Elz. cbn [fst snd tobs with_log]. rewrite Ht. reflexivity.
   - (* destroySelf *)
     destruct (nth h (slots s) None) as [[sd x]|] eqn:E; [|discriminate]. inversion Hs; subst.
     mred. cbn [slots with_log]. rewrite E. cbn [fst snd tobs with_log with_deleted]. rewrite Ht. reflexivity.
   - (* sync *)
     destruct (nth h (slots s) None) as [[sd x]|] eqn:E; [|discriminate]. inversion Hs; subst.
-    mred. cbn [slots with_log]. rewrite E. cbn [fst snd dead tobs with_log]. rewrite Ht. reflexivity.
+    mred. cbn [slots with_log]. rewrite E. cbn [fst snd].
+    destruct (lazy cfg); [|cbn [fst snd dead tobs with_log]; rewrite Ht; reflexivity].
+    change (get_inst (with_log s []) Txn x) with (get_inst s Txn x).
+    destruct (dirty (get_inst s Txn x)); mred; cbn [fst snd dead tobs with_log]; rewrite Ht; reflexivity.
+  - (* syncUpdate with something queued *)
+    destruct (nth h (slots s) None) as [[sd x]|] eqn:E; [|discriminate]. inversion Hs; subst.
+    mred. cbn [slots with_log]. rewrite E. cbn [fst snd].
+    change (get_inst (with_log s []) Txn x) with (get_inst s Txn x). rewrite Hn.
+    mred. cbn [fst snd dead tobs with_log]. rewrite Ht. reflexivity.
 Qed.
 
 (* get on a finished transaction: an instance the transaction's cache still holds, or AssertionError *)
@@ -184,6 +193,14 @@ Proof.
     inversion H1; subst. apply (H id r). apply assoc_In. exact E.
   - cbn. rewrite map_fst_assoc_set by congruence. exact Hn.
 Qed.
+Lemma tfun_update_cols id p : tfun_ok (fun t => (tt, tbl_update_cols id p t)).
+Proof.
+  intros t [H Hn]. cbn. unfold tbl_update_cols. destruct (assoc id (t_rows t)) as [r|] eqn:E; [|split; [split; assumption|lia]].
+  cbn. split; [|lia]. split.
+  - intros k x Hin. cbn in Hin. destruct (In_assoc_set _ _ _ _ Hin) as [H1|H1]; [apply (H k x H1)|].
+    inversion H1; subst. apply (H id r). apply assoc_In. exact E.
+  - cbn. rewrite map_fst_assoc_set by congruence. exact Hn.
+Qed.
 Lemma tfun_delete id : tfun_ok (fun t => (tt, tbl_delete id t)).
 Proof.
   intros t [H Hn]. cbn. split; [|lia]. split.
@@ -191,14 +208,20 @@ Proof.
   - cbn. apply NoDup_keys_assoc_remove. exact Hn.
 Qed.
 
-Lemma dbok_write sd q A (f : table -> A * table) : tfun_ok f -> pres Rdbok (stmt_write sd q f).
+Lemma dbok_write sd q A rf (f : table -> A * table) : tfun_ok f -> pres Rdbok (stmt_write sd q rf f).
 Proof.
   intros Hf s. unfold stmt_write. destruct sd.
   - destruct (pending s) eqn:E; [apply Rdbok_same; auto|].
+    destruct (rf (committed s)); [apply Rdbok_same; auto|].
     destruct (f (committed s)) as [a t] eqn:Ef. cbn [snd]. intros [H1 H2]. split; cbn.
     + pose proof (Hf (committed s) H1) as [G _]. rewrite Ef in G. exact G.
     + rewrite E. discriminate.
   - destruct (tobs s); [apply Rdbok_refl|].
+    destruct (rf (view s Txn)).
+    { (* refused: the transaction is open on the view it had *)
+      cbn [snd]. intros [H1 H2]. split; cbn; [exact H1|].
+      intros t' Ht'. inversion Ht'; subst t'. unfold view. destruct (pending s) as [t0|] eqn:E; [apply (H2 t0 eq_refl)|].
+      split; [exact H1|lia]. }
     destruct (f (view s Txn)) as [a t] eqn:Ef. cbn [snd]. intros [H1 H2]. split; cbn; [exact H1|].
     intros t' Ht'. inversion Ht'; subst t'. unfold view in Ef. destruct (pending s) as [t0|] eqn:E.
     + destruct (H2 t0 eq_refl) as [G1 G2]. pose proof (Hf t0 G1) as [K1 K2]. rewrite Ef in K1, K2. cbn in *. split; [exact K1|lia].
@@ -209,8 +232,9 @@ Section DbInst.
 Variable sd : side.
 Lemma dbok_read q : pres Rdbok (stmt_read sd q).
 Proof. intros s. unfold stmt_read. destruct (dead s sd); cbn; [apply Rdbok_refl|apply Rdbok_same; auto]. Qed.
-Lemma dbok_insert r : pres Rdbok (db_insert sd r). Proof. apply dbok_write. apply tfun_insert. Qed.
-Lemma dbok_update id c v : pres Rdbok (db_update sd id c v). Proof. apply dbok_write. apply tfun_update. Qed.
+Lemma dbok_insert r : pres Rdbok (db_insert cfg sd r). Proof. apply dbok_write. apply tfun_insert. Qed.
+Lemma dbok_update id c v : pres Rdbok (db_update cfg sd id c v). Proof. apply dbok_write. apply tfun_update. Qed.
+Lemma dbok_update_cols id l : pres Rdbok (db_update_cols cfg sd id l). Proof. apply dbok_write. apply tfun_update_cols. Qed.
 Lemma dbok_delete id : pres Rdbok (db_delete sd id). Proof. apply dbok_write. apply tfun_delete. Qed.
 Lemma dbok_with_cn s c : Rdbok s (with_cn s sd c). Proof. apply Rdbok_same; destruct sd; reflexivity. Qed.
 Lemma dbok_upd o f : keeps_id f -> pres Rdbok (upd_inst sd o f).
@@ -226,7 +250,7 @@ Proof. intros _. apply Rdbok_same; reflexivity. Qed.
 Lemma dbok_drop s h o : nth h (slots s) None = Some (sd, o) -> Rdbok s (with_slots s (set_nth h None (slots s))).
 Proof. intros _. apply Rdbok_same; reflexivity. Qed.
 Definition dbok_run_op :=
-  fp_run_op cfg sd Rdbok Rdbok_refl Rdbok_trans dbok_read dbok_insert dbok_update dbok_delete dbok_upd dbok_new dbok_cch
+  fp_run_op cfg sd Rdbok Rdbok_refl Rdbok_trans dbok_read dbok_insert dbok_update dbok_update_cols dbok_delete dbok_upd dbok_new dbok_cch
             dbok_del dbok_push dbok_drop.
 End DbInst.
 
@@ -298,7 +322,9 @@ Proof.
     intro. unfold so_create.
     eapply hoare_bind with (R := fun id x => id = t_next (view s Txn) /\ pending x <> None).
     { intros x ->. unfold db_insert, stmt_write. cbn [tobs s0 with_log]. destruct (tobs s); [exact I|].
-      change (view s0 Txn) with (view s Txn). cbn. split; [reflexivity|discriminate]. }
+      change (view s0 Txn) with (view s Txn).
+      match goal with |- context [if ?b then _ else _] => destruct b end; [exact I|].
+      cbn. split; [reflexivity|discriminate]. }
     intros id0.
     eapply hoare_bind with (R := fun o x => id0 = t_next (view s Txn) /\ known x Txn o id0 /\ pending x <> None).
     { intros x [-> Hp]. unfold new_inst. cbn. split; [reflexivity|]. split; [|exact Hp].
